@@ -66,16 +66,24 @@ def lazy_vs_eager(run: Any) -> list[Any]:
             continue
         if desc["setup"] != eager_sig[name]["setup"]:
             # a lazily expanded test may still lack parents that only its own worker parses; its own dependencies must be complete once it was executed
-            started = any(e["kind"] == "start" and e["name"] == name for e in run.trace)
+            started = any(e["kind"] == "start" and e["node"].setless_form == name for e in run.trace)
             if started or len(desc["setup"]) > len(eager_sig[name]["setup"]):
                 out.append((f"C09 {sc.name} lazy dependencies differ", f"{name.split('.vms.')[0]}: lazy {[s[0].split('.vms.')[0] for s in desc['setup']]} vs eager {[s[0].split('.vms.')[0] for s in eager_sig[name]['setup']]}", {}))
         if desc["objects"] != eager_sig[name]["objects"]:
             out.append((f"C09 {sc.name} lazy objects differ", f"{name.split('.vms.')[0]} uses other objects than when parsed up front", {}))
+    if run.crash is not None:
+        exc = getattr(run.crash, "exc", run.crash)
+        out.append((f"C09 {sc.name} lazy expansion crashed {type(exc).__name__}", f"the lazy traversal failed: {run.crash}", {}))
     if run.crash is None:
         lazy_leaves = {trav.bridged_name(n) for n in run.graph.nodes if not n.is_flat() and not n.is_shared_root() and len(n.cloned_nodes) == 0}
         for leaf in eager_leaves:
             if leaf not in lazy_leaves:
                 out.append((f"C09 {sc.name} selected test never expanded", f"{_short(leaf)} was not expanded by any worker during the lazy traversal", {}))
+        if len(run.graph.workers) == 1:
+            # a single worker expands everything: the lazily built graph must be the eager one
+            for name in eager_sig:
+                if name not in lazy_sig:
+                    out.append((f"C09 {sc.name} eagerly parsed node missing after lazy expansion", f"{name.split('.vms.')[0]} is parsed up front but never appears when the single worker expands the graph lazily", {}))
     out += structure.worker_copies(run.graph, sc.name)
     return out
 
@@ -86,6 +94,8 @@ def plans(tier: str) -> list[dict[str, Any]]:
         P("lazy=eager: G2 2 workers", trav.menu("G2"), [lazy_vs_eager], K=1, statuses=["PASS"]),
         P("lazy=eager: G3 2 workers", trav.menu("G3"), [lazy_vs_eager], K=1, statuses=["PASS", "FAIL"], max_nonpass=1, pool_fixed=trav.DEEP_PRESENT),
         P("lazy=eager: G5 restricted worker", trav.menu("G5"), [lazy_vs_eager], K=1, statuses=["PASS"]),
+        P("lazy=eager: G10 a test reachable through a nested set and as another test's setup", trav.menu("G10"), [lazy_vs_eager], K=1, statuses=["PASS"], pool_fixed={**trav.DEEP_PRESENT, "linux_virtuser": ["shared"], "windows_virtuser": ["shared"], "connect": ["shared"]}),
+        P("lazy=eager: G4h a cloned test and its dependant both selected, 2 workers", trav.menu("G4h"), [lazy_vs_eager], K=1, statuses=["PASS"], pool_fixed={**trav.DEEP_PRESENT, "linux_virtuser": ["shared"], "windows_virtuser": ["shared"], "connect": ["shared"]}),
     ]
     if tier == "thorough":
         out += [
@@ -218,7 +228,7 @@ def replay_bridge(data: dict[str, Any]) -> tuple[bool, str]:
 def check_twice(ctx: common.Context) -> None:
     """(d) parsing the same input twice yields the same graph; (b) on eager graphs."""
     trav.install()
-    names = ["G2", "G3", "G1x3"] + (["G4", "G6b", "G23"] if ctx.thorough else [])
+    names = ["G2", "G3", "G1x3", "G4g"] + (["G4", "G6b", "G23"] if ctx.thorough else [])
     for name in names:
         sc = trav.menu(name, lazy=False)
         g1 = trav.prepare(symx.Engine(), sc, trav.Config()).graph
